@@ -165,6 +165,13 @@ func TestC01(t *testing.T) {
 				}
 			}
 		}
+		if c.Weighted("c01.ecoWorld", 2, 1) == 1 {
+			c.Class("ecosystem-world")
+			if _, err := sim.EcosystemScript(h); err != nil {
+				c.Note("ecosystem script stopped: %v", err)
+			}
+			inv()
+		}
 		c.Repeat(map[string]func(){
 			"transfer": h.ActTransfer,
 			"receive":  h.ActReceive,
